@@ -501,10 +501,13 @@ class BaseOrchestrator(ABC):
         #     it should try to finish all the calls in this function
 
         # TODO store Retry exception on Retry status
+        # Count the retry before the invocation becomes available again: RETRY is already
+        # claimable (blocking-priority path) before the message is routed, and the next
+        # attempt decides "retry or fail" from this counter
+        self.app.orchestrator.increment_invocation_retries(invocation_id)
         self.app.orchestrator.set_invocation_status(
             invocation_id, InvocationStatus.RETRY, runner_ctx
         )
-        self.app.orchestrator.increment_invocation_retries(invocation_id)
         self.app.broker.route_invocation(invocation_id)
 
     def is_candidate_to_run_by_concurrency_control(
